@@ -50,6 +50,7 @@ Definition sort_by (key : axis -> nat) (l : list axis) : list axis := fold_right
 
 (* Axes.from_shape(shape, dims) *)
 Definition from_shape (ds : list dname) (shape : list nat) : res (list axis) :=
+  if List.length shape <? List.length ds then Err ValueError else        (* more names than dimensions: refused *)
   if negb (List.length ds =? List.length shape) then Err IndexError else
   let! axs := mapM (fun p => mk_named_axis (fst p) KI (arange_labels (snd p))) (combine ds shape) in
   append_all [] axs.
@@ -73,6 +74,7 @@ Definition init_axes (sp : axspec) (shape : list nat) : res (list axis) :=
   | SAxisObjs l => append_all [] l
   | SDict [] ds => from_shape ds shape        (* an empty dict: default axes *)
   | SDict l ds =>
+      if List.length l <? List.length ds then Err ValueError else          (* more names than axes: refused *)
       let! axs := mapM (fun p => mk_named_axis (fst p) (fst (snd p)) (snd (snd p))) l in
       let! axs := append_all [] axs in
       (* axes.sort(dims): every axis name must be listed in dims; order of dims *)
